@@ -78,41 +78,40 @@ def nullExtend (l : Val N) (rightIdent : String) : R (Val N) :=
   | .obj a => .ok (.obj (setKey rightIdent .null (copyInto [] a)))
   | _ => .error .error
 
-def pairAll (ls rs : List (Val N)) : R (List (Val N)) :=
-  ls.foldlM (init := []) fun acc l => do
-    let row ← rs.foldlM (init := []) fun acc2 r => do
-      let m ← mergeRows l r
-      pure (acc2 ++ [m])
-    pure (acc ++ row)
+/-- the two nested loops over `l.Rows[lk]` × `r.Rows[rk]` -/
+def pairAll (ls rs : List (Val N)) : R (List (Val N)) := do
+  let rows ← mapE (fun l => mapE (mergeRows l) rs) ls
+  pure rows.flatten
 
 def nullAll (ls : List (Val N)) (rightIdent : String) : R (List (Val N)) :=
-  ls.foldlM (init := []) fun acc l => do
-    let m ← nullExtend l rightIdent
-    pure (acc ++ [m])
+  mapE (fun l => nullExtend l rightIdent) ls
 
-/-- `HashJoinFunc` / `HashJoinMatchFunc` -/
-def hashJoinRun (inner : Bool) (rightIdent : String) (l r : List (CatEntry N)) : R (List (Val N)) :=
-  l.foldlM (init := []) fun acc le =>
-    match catLookup le.key r with
-    | some re => do
-      let rows ← if re.rows.isEmpty then nullAll le.rows rightIdent else pairAll le.rows re.rows
-      pure (acc ++ rows)
-    | none =>
-      if inner then pure acc
-      else do
-        let rows ← nullAll le.rows rightIdent
-        pure (acc ++ rows)
+/-- `HashJoinMatchFunc` for one left key group -/
+def hashMatch (inner : Bool) (rightIdent : String) (r : List (CatEntry N)) (le : CatEntry N) : R (List (Val N)) :=
+  match catLookup le.key r with
+  | some re => if re.rows.isEmpty then nullAll le.rows rightIdent else pairAll le.rows re.rows
+  | none => if inner then .ok [] else nullAll le.rows rightIdent
+
+/-- `HashJoinFunc` -/
+def hashJoinRun (inner : Bool) (rightIdent : String) (l r : List (CatEntry N)) : R (List (Val N)) := do
+  let chunks ← mapE (hashMatch inner rightIdent r) l
+  pure chunks.flatten
+
+/-- ON evaluated on one (left group, right group): the pairs if it holds -/
+def nestedPair (on : Row N → R Bool) (le re : CatEntry N) : R (Option (List (Val N))) := do
+  let b ← on (copyInto (copyInto [] le.keyMap) re.keyMap)
+  if b then do
+    let ps ← pairAll le.rows re.rows
+    pure (some ps)
+  else pure none
 
 /-- `JoinMatchFunc` for one left key group: ON is evaluated once per (left group, right group)
     on the union of the two key maps. -/
 def nestedMatch (on : Row N → R Bool) (inner : Bool) (rightIdent : String)
     (le : CatEntry N) (r : List (CatEntry N)) : R (List (Val N)) := do
-  let (matched, rows) ← r.foldlM (init := (false, [])) fun (acc : Bool × List (Val N)) re => do
-    let b ← on (copyInto (copyInto [] le.keyMap) re.keyMap)
-    if b then do
-      let ps ← pairAll le.rows re.rows
-      pure (true, acc.2 ++ ps)
-    else pure acc
+  let parts ← mapE (nestedPair on le) r
+  let matched := parts.any Option.isSome
+  let rows := (parts.map fun p => p.getD []).flatten
   if !matched && !inner then do
     let ns ← nullAll le.rows rightIdent
     pure (rows ++ ns)
@@ -120,10 +119,9 @@ def nestedMatch (on : Row N → R Bool) (inner : Bool) (rightIdent : String)
 
 /-- `JoinFunc` -/
 def nestedRun (on : Row N → R Bool) (inner : Bool) (rightIdent : String)
-    (l r : List (CatEntry N)) : R (List (Val N)) :=
-  l.foldlM (init := []) fun acc le => do
-    let rows ← nestedMatch on inner rightIdent le r
-    pure (acc ++ rows)
+    (l r : List (CatEntry N)) : R (List (Val N)) := do
+  let chunks ← mapE (fun le => nestedMatch on inner rightIdent le r) l
+  pure chunks.flatten
 
 /-- `(*Join).Exec` with `StraightJoin`, `HashJoin`, `Join`. `on` evaluates the ON expression on a
     key-map row (hard-coded reads); `onExpr` is its syntax (for column extraction / analysis). -/
